@@ -195,8 +195,9 @@ static void check09(const std::vector<WOp> &ops, Src &s) {
     for (size_t i = 0; i < ops.size(); i++) {
         if (mode == 2 && i == knull) {
             size_t c0 = binson_writer_get_counter(&w);
-            bool r = null_raw ? binson_write_raw(&w, nullptr, 3) : binson_write_string(&w, nullptr);
-            hist += null_raw ? "raw(NULL); " : "string(NULL); ";
+            bool via_parser = null_raw && (knull & 1);
+            bool r = via_parser ? binson_parser_to_writer(nullptr, &w) : null_raw ? binson_write_raw(&w, nullptr, 3) : binson_write_string(&w, nullptr);
+            hist += via_parser ? "to_writer(NULL parser); " : null_raw ? "raw(NULL); " : "string(NULL); ";
             if (r) VH_FAIL("C09/w/null-arg/ret=true", "write with a NULL argument returned true; ops: %s", ops_text(ops).c_str());
             if (w.error_flags == BINSON_ERROR_NONE) VH_FAIL("C09/w/null-arg/no-error", "write with a NULL argument set no error");
             if (binson_writer_get_counter(&w) != c0) VH_FAIL("C09/w/null-arg/counter", "counter moved by a refused NULL write");
